@@ -50,6 +50,11 @@ def _worker(arg):
             continue
         r = dict(asmint.analyse_func(name, entry, insns, summaries, th))
         w0, cl = asmint.written_gprs(entry, insns)
+        hist = {}
+        for a_ in asmint.reachable_insns(entry, insns):
+            m_ = insns[a_]['mn']
+            hist[m_] = hist.get(m_, 0) + 1
+        r['hist'] = hist
         r['gprw0'] = sorted(w0)
         r['callees0'] = sorted(c for c in cl if c)
         # map interesting addresses to source lines
